@@ -221,7 +221,9 @@ fn history(ctx: &mut Ctx, rng: &mut Rng, base: &Engine, rv: &RefVoice, descr: &s
                 calls.push(format!("set_additional_half_tone({:e})", x));
             }
             _ => {
-                let v = rng.uniform(-60.0, 60.0);
+                // (one call in three with an argument from the general pool: zeros, denormals,
+                // +-1e300, ... — whatever the gain does with it, no other setting moves)
+                let v = if rng.chance(0.33) { x } else { rng.uniform(-60.0, 60.0) };
                 c.set_volume(v);
                 volume_set = true;
                 calls.push(format!("set_volume({})", v));
